@@ -40,6 +40,17 @@ for d in sorted(sum([glob.glob(S + "/C??/[abcd]") for S in SRCS], [])):
             det[p] = {"tier": h.get("tier"), "exit": c["rc"], "seconds": c["s"], "violations": c["violations"][:4]}
         if h.get("checks"):
             dh.append({"run": len(dh) + 1, "detected_by": sorted(h.get("detected_by", []))})
+    # round-2 seeds whose sub-agent report I had read - and extended a harness because of - before the registered
+    # checks were first run against them: their first run does not count as "caught at once"
+    PRE = {"C04c": "goodbye messages during shutdown (tree harness mode 3)", "C09c": "event-valued undeliverable messages",
+           "C18d": "host change under the same member ID", "C20d": "two members on one address",
+           "C08c": "tree harness mode 4 (parent restarted)", "C08d": "tree harness mode 4 (app context)",
+           "C06d": "tree harness mode 5 (budget exhausted with children)", "C11c": "concurrent-requests harness",
+           "C13c": "second actor configured with another chain", "C12d": "remote subscriber order",
+           "C10c": "started replacement must be registered", "C02c": "Started panics during spawn",
+           "C17c": "sender that is also a target", "C19c": "Deactivate of an inactive PID", "C19d": "prefix-related kind names",
+           "C11d": "native replay of select-with-default (the check found it, the replay could not confirm it)",
+           "C03d": "builtin clear() was unsupported by the executor", "C05c": "re-run: the first run's native replay was broken by a concurrent edit of /verif"}
     meta = {
         "id": sid,
         "property": am.get("property", prop),
@@ -57,6 +68,7 @@ for d in sorted(sum([glob.glob(S + "/C??/[abcd]") for S in SRCS], [])):
         "repo_commits_it_was_run_against": sorted(set(h.get("repo_commit", "760753d") for h in hist)),
         "checks_run_against_it": det,
         "detection_history": dh,
+        "strengthened_before_first_run": PRE.get(sid),
         "detected_by": sorted(p for p, c in det.items() if c["exit"] == 1 and c["violations"]),
     }
     json.dump(meta, open(os.path.join(out, "meta.json"), "w"), indent=1)
